@@ -80,6 +80,12 @@ def run(op, a):
         tx2.vin[idx2].scriptSig = ssig
         fl = {E.SCRIPT_VERIFY_P2SH}
         r0 = outcome(lambda: E.VerifyScript(ssig, spk, tx, idx, fl))
+        # the dummy element this harness pushes for CHECKMULTISIG is empty, so asking for NULLDUMMY (and the
+        # flags the interpreter does not implement) changes nothing
+        more = outcome(lambda: E.VerifyScript(ssig, spk, tx, idx, fl | {E.SCRIPT_VERIFY_NULLDUMMY, E.SCRIPT_VERIFY_LOW_S, E.SCRIPT_VERIFY_STRICTENC}))
+        surplus = op == 2 and len(wrongkey[1]) != m          # a surplus signature takes the dummy's place: not empty
+        if (more == 0) != (r0 == 0) and not surplus:
+            r0 = vals.Err(vals.EXN_CODES['OtherErr'])
         # the txFrom / txTo entry point: the same spend, re-signed for an outpoint that really is the
         # output of a funding transaction (which itself carries witness data), must get from
         # VerifySignature the answer VerifyScript gives (both without flags)
